@@ -213,14 +213,4 @@ def shadowedByConstants : List Name := [
 /-- `"°C"` -/
 def degreeSignC : Name := 142606513
 
-/-- KNOWN FINDING C14 `unusable|word+alias|°`: the spellings  <prefix word>°C  and
-    <Prefix word>°C  (kilo°C, Kilo°C, …) are listed names but cannot be parsed: the parser rewrites
-    `°` to `deg` before the alias table is consulted and `kilodegC` is not a name.
-    This is the explicit guard of `every_name_resolves_correctly_partial`. -/
-def isWordPrefixedDegreeC (ct : CaseTable) (s : Name) : Bool :=
-  let n := Name.len s
-  decide (2 < n) && Nat.beq (Name.drop (n - 2) s) degreeSignC &&
-    (let w := Name.take (n - 2) s
-     prefixWords.any fun (x, _) => Nat.beq x w || Nat.beq (Name.title ct x) w)
-
 end Unyt.Ref.C14
